@@ -20,7 +20,8 @@ URCU_OBJS = $(patsubst %,$(BUILD)/u-%.o,$(COMMON_SRC)) \
 SCEN_SRC = $(wildcard scen/*.c)
 SCEN_NAMES = $(filter-out oracle wgl flavor_glue,$(basename $(notdir $(SCEN_SRC))))
 SCEN_OBJS = $(patsubst %,$(BUILD)/s-%.o,$(SCEN_NAMES)) \
-	$(BUILD)/s-glue-memb.o $(BUILD)/s-glue-mb.o $(BUILD)/s-glue-qsbr.o $(BUILD)/s-glue-bp.o
+	$(BUILD)/s-glue-memb.o $(BUILD)/s-glue-mb.o $(BUILD)/s-glue-qsbr.o $(BUILD)/s-glue-bp.o \
+	$(BUILD)/s-uatomic-builtins.o
 
 REPO_DEPS = $(wildcard $(REPO)/src/*.c $(REPO)/src/*.h $(REPO)/include/urcu/*.h \
 	$(REPO)/include/urcu/*/*.h $(REPO)/include/*.h)
@@ -57,6 +58,8 @@ $(BUILD)/s-glue-qsbr.o: scen/flavor_glue.c scen/flavor.h $(REPO_DEPS) redef.txt
 	$(CC) $(SCENFLAGS) -DGLUE_QSBR -c $< -o $@ && objcopy --redefine-syms=redef.txt $@
 $(BUILD)/s-glue-bp.o: scen/flavor_glue.c scen/flavor.h $(REPO_DEPS) redef.txt
 	$(CC) $(SCENFLAGS) -DGLUE_BP -c $< -o $@ && objcopy --redefine-syms=redef.txt $@
+$(BUILD)/s-uatomic-builtins.o: scen/uatomic.c $(wildcard scen/*.h) usim/usim.h $(REPO_DEPS) redef.txt
+	$(CC) $(SCENFLAGS) -DUAT_BUILTINS -DCONFIG_RCU_USE_ATOMIC_BUILTINS -c $< -o $@ && objcopy --redefine-syms=redef.txt $@
 $(BUILD)/s-%.o: scen/%.c $(wildcard scen/*.h) usim/usim.h $(REPO_DEPS) redef.txt
 	$(CC) $(SCENFLAGS) -c $< -o $@ && objcopy --redefine-syms=redef.txt $@
 
